@@ -1,6 +1,7 @@
 /- Driver half of engine `own`: the ownership ledger. -/
 import EyeballVerif.Driver.Text
 import EyeballVerif.Model.Own
+import EyeballVerif.Model.RBox
 namespace EV
 
 def ownStep (l : Ledger) (toks : List String) : Option (Ledger × String) :=
@@ -16,6 +17,31 @@ def ownStep (l : Ledger) (toks : List String) : Option (Ledger × String) :=
   | ["l.into"] => let l' := l.step .intoShared; some (l', show_ l')
   | ["l.none"] => some (l, show_ l)
   | ["lvecend"] => some (l, "live=0 double=0")
+  | _ => none
+
+/-- engine `rbox`: the reusable boxed future. `rnew id layout panics`, `rset id layout panics`, `rpoll`, `rdrop`, `rend`. -/
+def rboxStep (b : RB) (toks : List String) : Option (RB × String) :=
+  let fut (i l p : String) : Option Fut := do some { id := ← i.toNat?, layout := ← l.toNat?, dropPanics := p = "1" }
+  let stored (b : RB) : String := match b.cur with | some f => toString f.id | none => "-"
+  match toks with
+  | ["rnew", i, l, p] =>
+    match fut i l p with
+    | some f => some (RB.new f, "ok")
+    | none => some (b, "bad-op")
+  | ["rset", i, l, p] =>
+    match fut i l p with
+    | some f =>
+      if !b.alive then some (b, "bad-op") else
+      let (b', pan) := b.set f
+      some (b', (if pan then "panic" else "ok") ++ " dropped=" ++ showList b'.dropped ++ " stored=" ++ stored b' ++
+                (if pan then "" else " alloc=" ++ toString (b'.allocs - b.allocs)))
+    | none => some (b, "bad-op")
+  | ["rpoll"] => some (b, match b.cur with | some f => "Ready(" ++ toString f.id ++ ")" | none => "Pending")
+  | ["rdrop"] =>
+    if !b.alive then some (b, "bad-op") else
+    let (b', pan) := b.drop
+    some (b', (if pan then "panic" else "ok") ++ " dropped=" ++ showList b'.dropped)
+  | ["rend"] => some (b, "dropped=" ++ showList b.dropped ++ " leaked=" ++ showList b.leaked ++ " allocs_alive=" ++ toString b.allocLive)
   | _ => none
 
 end EV
